@@ -68,6 +68,8 @@ Rewrite ==
   \cup {DSync(m) : m \in {<< <<0, 1, 0>> >>, << <<0, -1, 0>> >>, << <<1, 0, 0>> >>, << <<0, 1, 2>> >>,
                           << <<0, 1, -1>> >>, << <<0, 1, 0>>, <<2, 1, 0>> >>, << <<0, 5, 0>> >>,
                           << <<5, 0, 0>> >>, << <<-1, 0, 2>> >>}}
+  \cup {DSyncF(m, f) : f \in {1, 2}, m \in {<< <<0, 1, 2>> >>, << <<0, -1, -1>> >>, << <<0, 1, 2>>, <<2, 1, 0>> >>,
+                                              << <<1, 0, 3>>, <<2, 5, 2>> >>, << <<-1, 0, 2>> >>}}
   \cup {DClipped(0, 2, 0, 0), DClipped(-INF, 1, 0, 0), DClipped(1, INF, 0, 0), DClipped(-1, -1, 0, 0),
         DClipped(0, 2, 1, 0), DClipped(0, 2, 1, 1)}
   \cup {DSuppressed(2, 0, 0), DSuppressed(1, 0, 0), DSuppressed(0, 0, 0), DSuppressed(2, 1, 0), DSuppressed(2, 1, 1)}
@@ -88,7 +90,8 @@ NDecs == {DRounded(-1, ix) : ix \in {All, <<0>>, <<-1>>, <<0, 3>>}} \cup {DPreci
 
 (* script mode: sequences of input-rewriting decorators stacked on one function *)
 SDecs == {DBounds(IvOne, All, 1, 1, 0), DDiscrete(<<0, 2, 4>>, <<0, 1>>), DIntegers(0, <<-1>>), DRounded(NONE, All),
-          DMonotonic(1, 0, All, 0), DSorting(0, 0, <<0, 2>>, 0), DAt(<<1>>, 3), DAs(<< <<0, 2>> >>, 2),
+          DMonotonic(1, 0, All, 0), DSorting(0, 0, <<0, 2>>, 0), DAt(<<1>>, 3),
+          DAs(<< <<0, 1>>, <<1, 2>> >>, 2), DAs(<< <<2, 1>>, <<1, 0>> >>, NONE), DAs(<< <<0, 2>>, <<1, 2>> >>, -1),
           DPartial(<< <<0, -1>> >>), DSync(<< <<1, 0, 0>> >>), DClipped(-1, 2, 0, 0), DSuppressed(2, 0, 0),
           DMean(2)}
 =============================================================================
